@@ -526,27 +526,6 @@ Proof.
   inversion H as [|? ? Hs Hf]; subst. inversion Hf; subst. apply andb_true_iff. split; [assumption|]. apply IH. exact Hs.
 Qed.
 
-Lemma merge_outcome_cherry head p c : merge_outcome_ok p head c (of_pres (cherry_pick head p c)) = true.
-Proof.
-  pose proof (cherry_pick_is_merge head p c) as H. unfold merge_outcome_ok.
-  unfold cherry_pick in *. destruct (clean p head c) eqn:C; cbn [negb] in *.
-  - destruct (content_eqb (cherry_pick_data head p c) (norm head)); cbn [of_pres mk k_kind k_data N.eqb Pos.eqb].
-    + apply is_merge3_b_intro; exact H.
-    + rewrite (is_merge3_b_intro _ _ _ _ H). apply sorted_canonical. apply sorted_merge3.
-  - cbn [of_pres mk k_kind N.eqb Pos.eqb]. destruct (no_conflict_b p head c) eqn:Nc; [|reflexivity].
-    apply no_conflict_b_clean in Nc. congruence.
-Qed.
-Lemma merge_outcome_revert head p c : merge_outcome_ok c head p (of_pres (revert head p c)) = true.
-Proof.
-  pose proof (revert_is_merge head p c) as H. unfold merge_outcome_ok.
-  unfold revert in *. destruct (clean c head p) eqn:C; cbn [negb] in *.
-  - destruct (content_eqb (revert_data head p c) (norm head)); cbn [of_pres mk k_kind k_data N.eqb Pos.eqb].
-    + apply is_merge3_b_intro; exact H.
-    + rewrite (is_merge3_b_intro _ _ _ _ H). apply sorted_canonical. apply sorted_merge3.
-  - cbn [of_pres mk k_kind N.eqb Pos.eqb]. destruct (no_conflict_b c head p) eqn:Nc; [|reflexivity].
-    apply no_conflict_b_clean in Nc. congruence.
-Qed.
-
 Lemma norm_eq_of_ext a b : ext_eq a b -> norm a = norm b.
 Proof.
   intros E. apply sorted_ext; [apply sorted_norm|apply sorted_norm|]. intros k. rewrite !get_norm. apply E.
@@ -554,53 +533,243 @@ Qed.
 Lemma content_eqb_refl a : content_eqb a a = true.
 Proof. apply content_eqb_eq; reflexivity. Qed.
 
-Lemma oracle_op_model h o : oracle_op h o (model_op h o) = true.
+(* ================= round 2 ================= *)
+(* ---------------- resolution: the merge with conflicting keys taken from one side ---------------- *)
+Theorem get_resolved h b o t k :
+  get k (resolved h b o t) = match merge_row (get k b) (get k o) (get k t) with
+                             | MOk v => v
+                             | MConflict => pick_side h (get k o) (get k t)
+                             end.
 Proof.
-  destruct o as [hd c | hd c | onto pl]; cbn [oracle_op model_op].
-  - destruct (data_at h hd) as [dh|] eqn:Eh; [|reflexivity].
-    destruct (parent_data h c) as [dp|] eqn:Ep; [|reflexivity].
-    destruct (data_at h c) as [dc|] eqn:Ec; [|reflexivity].
-    rewrite merge_outcome_cherry. cbn [andb].
-    destruct (first_parent h c) as [pi|] eqn:Fp; [|reflexivity].
-    destruct (pi =? hd) eqn:Q; [|reflexivity]. apply N.eqb_eq in Q; subst pi.
-    unfold parent_data in Ep. rewrite Fp, Eh in Ep. inversion Ep; subst dp.
-    rewrite cherry_pick_on_parent.
-    destruct (ext_eqb dh dc) eqn:X.
-    + apply ext_eqb_elim in X. rewrite (norm_eq_of_ext _ _ X), content_eqb_refl. reflexivity.
-    + destruct (content_eqb (norm dc) (norm dh)) eqn:Y.
-      * apply content_eqb_eq in Y. assert (ext_eq dh dc) as Z by (intros k; rewrite <- (get_norm dh), <- (get_norm dc), Y; reflexivity).
-        apply ext_eqb_intro in Z. congruence.
-      * cbn [of_pres mk k_kind k_data N.eqb andb]. apply ext_eqb_intro. intros k. apply get_norm.
-  - destruct (data_at h hd) as [dh|] eqn:Eh; [|reflexivity].
-    destruct (parent_data h c) as [dp|] eqn:Ep; [|reflexivity].
-    destruct (data_at h c) as [dc|] eqn:Ec; [|reflexivity].
-    rewrite merge_outcome_revert. cbn [andb].
-    destruct (c =? hd) eqn:Q; [|reflexivity]. apply N.eqb_eq in Q; subst hd.
-    rewrite Ec in Eh. inversion Eh; subst dh.
-    rewrite revert_latest.
-    destruct (ext_eqb dp dc) eqn:X.
-    + apply ext_eqb_elim in X. rewrite (norm_eq_of_ext _ _ X), content_eqb_refl. reflexivity.
-    + destruct (content_eqb (norm dp) (norm dc)) eqn:Y.
-      * apply content_eqb_eq in Y. assert (ext_eq dp dc) as Z by (intros k; rewrite <- (get_norm dp), <- (get_norm dc), Y; reflexivity).
-        apply ext_eqb_intro in Z. congruence.
-      * cbn [of_pres mk k_kind k_data N.eqb andb]. apply ext_eqb_intro. intros k. apply get_norm.
-  - destruct (data_at h onto) as [d0|]; [|reflexivity].
-    destruct (plan_of h pl) as [p|]; [|reflexivity].
-    pose proof (rebase_is_fold d0 p) as H.
-    destruct (run_plan d0 p) as [s| |].
-    + destruct H as [V [d [F E]]]. rewrite V, F. cbn [negb mk k_kind k_data N.eqb andb].
-      apply andb_true_iff. split.
-      * apply ext_eqb_intro. intros k. rewrite get_norm. apply E.
-      * apply sorted_canonical. apply sorted_norm.
-    + destruct H as [V F]. rewrite V, F. reflexivity.
-    + rewrite H. reflexivity.
+  unfold resolved. rewrite (get_flat_map (resolve_at h b o t)).
+  unfold keys3. rewrite mem_sort, !mem_app. unfold resolve_at, merge3_at.
+  destruct (mem k (keys b)) eqn:Eb; [reflexivity|].
+  destruct (mem k (keys o)) eqn:Eo; [reflexivity|].
+  destruct (mem k (keys t)) eqn:Et; [reflexivity|]. cbn [orb].
+  rewrite (get_not_mem _ _ Eb), (get_not_mem _ _ Eo), (get_not_mem _ _ Et). reflexivity.
+Qed.
+Theorem resolved_is_resolved h b o t : is_resolved h b o t (resolved h b o t).
+Proof. intros k. apply get_resolved. Qed.
+Theorem resolved_of_clean h b o t : clean b o t = true -> ext_eq (resolved h b o t) (merge3 b o t).
+Proof.
+  intros C k. rewrite get_resolved, get_merge3. pose proof (proj1 (clean_iff b o t) C k) as H.
+  destruct (merge_row (get k b) (get k o) (get k t)); [reflexivity|congruence].
+Qed.
+Lemma sorted_resolved h b o t : sorted (keys (resolved h b o t)).
+Proof. unfold resolved. apply (sorted_flat_map (resolve_at h b o t)). apply sorted_sort. Qed.
+Lemma resolved_ext h b o o' t : ext_eq o o' -> ext_eq (resolved h b o t) (resolved h b o' t).
+Proof. intros E k. rewrite !get_resolved, E. reflexivity. Qed.
+
+(* the procedures under a conflict policy: what each outcome means *)
+Theorem merge_proc_spec m b o t :
+  match merge_proc m b o t with
+  | QOk d => is_merge3 b o t d
+  | QNoChange => is_merge3 b o t o
+  | QConflict => has_conflict b o t /\ m = Stop
+  | QResolved d => has_conflict b o t /\ exists h, m = Resolve h /\ is_resolved h b o t d
+  | QAborted d => has_conflict b o t /\ m = Abort /\ d = norm o
+  end.
+Proof.
+  unfold merge_proc. destruct (clean b o t) eqn:C.
+  - destruct (content_eqb (merge3 b o t) (norm o)) eqn:E.
+    + apply content_eqb_eq in E. destruct (merge3_is_merge _ _ _ C) as [H1 H2]. split; [exact H1|].
+      intros k. rewrite <- H2, E, get_norm. reflexivity.
+    + apply merge3_is_merge; exact C.
+  - pose proof (unclean_has_conflict _ _ _ C) as Hc. destruct m as [|h|].
+    + split; [exact Hc|reflexivity].
+    + split; [exact Hc|]. exists h. split; [reflexivity|apply resolved_is_resolved].
+    + split; [exact Hc|]. split; reflexivity.
 Qed.
 
-Theorem oracle_on_model i : oracle i (model_obs i) = true.
+(* --abort restores exactly the state before the operation, whatever was done while it was stopped *)
+Lemma fold_uedit_keeps edits : forall s,
+  os_head (fold_left apply_uedit edits s) = os_head s /\ os_pre (fold_left apply_uedit edits s) = os_pre s.
 Proof.
-  destruct i as [cs ops]. unfold oracle, model_obs. cbn [fst snd].
-  induction ops as [|o ops IH]; [reflexivity|]. cbn [map oracle_ops]. rewrite oracle_op_model, IH. reflexivity.
+  induction edits as [|e edits IH]; intros s; [split; reflexivity|].
+  cbn [fold_left]. destruct (IH (apply_uedit s e)) as [H1 H2]. rewrite H1, H2. destruct e; split; reflexivity.
 Qed.
+Theorem abort_restores b o t edits :
+  abort_op (fold_left apply_uedit edits (start_paused b o t)) = Some (clean_state o).
+Proof.
+  unfold abort_op. destruct (fold_uedit_keeps edits (start_paused b o t)) as [H1 H2]. rewrite H1, H2. reflexivity.
+Qed.
+Theorem abort_without_operation h : abort_op (clean_state h) = None.
+Proof. reflexivity. Qed.
+
+(* ---------------- rebase under a conflict policy ---------------- *)
+Lemma head_commit_step a s d : ext_eq (r_head (commit_step a s d)) d.
+Proof.
+  unfold commit_step. destruct (content_eqb d (norm (r_head s))) eqn:E.
+  - apply content_eqb_eq in E. intros k. rewrite E, get_norm. reflexivity.
+  - destruct a; try (intros k; reflexivity); destruct (r_new s); intros k; reflexivity.
+Qed.
+
+Lemma run_steps2_fold m orig p : forall s n h, ext_eq (r_head s) h ->
+  match run_steps2 m orig s n p with
+  | R2Ok s' _ => exists d, fold_picks2 m h (kept p) = Some d /\ ext_eq (r_head s') d
+  | R2Conflict => m = Stop /\ fold_picks2 m h (kept p) = None
+  | R2Aborted d => m = Abort /\ d = orig /\ fold_picks2 m h (kept p) = None
+  | R2Invalid => False
+  end.
+Proof.
+  induction p as [|[a [pp c]] p IH]; intros s n h E.
+  - cbn [run_steps2 kept filter map fold_picks2]. exists h. split; [reflexivity|exact E].
+  - rewrite kept_cons.
+    assert (Keep : is_kept a = true ->
+      match (if clean pp (r_head s) c
+             then run_steps2 m orig (commit_step a s (cherry_pick_data (r_head s) pp c)) n p
+             else match m with
+                  | Stop => R2Conflict
+                  | Abort => R2Aborted orig
+                  | Resolve hh => run_steps2 m orig (commit_step a s (resolved hh pp (r_head s) c)) (n + 1) p
+                  end) with
+      | R2Ok s' _ => exists d, fold_picks2 m h ((pp, c) :: kept p) = Some d /\ ext_eq (r_head s') d
+      | R2Conflict => m = Stop /\ fold_picks2 m h ((pp, c) :: kept p) = None
+      | R2Aborted d => m = Abort /\ d = orig /\ fold_picks2 m h ((pp, c) :: kept p) = None
+      | R2Invalid => False
+      end).
+    { intros _. cbn [fold_picks2]. unfold pick2. rewrite <- (clean_ext pp (r_head s) h c E).
+      destruct (clean pp (r_head s) c) eqn:C.
+      - apply IH. intros k. rewrite (head_commit_step a s _ k). apply merge3_ext. exact E.
+      - destruct m as [|hh|].
+        + split; reflexivity.
+        + apply IH. intros k. rewrite (head_commit_step a s _ k). apply resolved_ext. exact E.
+        + repeat split; reflexivity. }
+    destruct a; cbn [run_steps2 is_kept]; try (apply Keep; reflexivity).
+    apply IH. exact E.
+Qed.
+
+(* the data after a rebase plan under a policy is the fold of (resolved) cherry-picks; it stops
+   exactly when the fold stops; --abort gives back the branch as it was *)
+Theorem rebase2_is_fold m orig onto p :
+  match run_plan2 m orig onto p with
+  | R2Ok s _ => valid_plan p = true /\ exists d, fold_picks2 m onto (kept p) = Some d /\ ext_eq (r_head s) d
+  | R2Conflict => valid_plan p = true /\ m = Stop /\ fold_picks2 m onto (kept p) = None
+  | R2Aborted d => valid_plan p = true /\ m = Abort /\ d = orig /\ fold_picks2 m onto (kept p) = None
+  | R2Invalid => valid_plan p = false
+  end.
+Proof.
+  unfold run_plan2. destruct (valid_plan p) eqn:V; [|reflexivity].
+  pose proof (run_steps2_fold m orig p {| r_onto := onto; r_new := [] |} 0 onto (fun k => eq_refl)) as H.
+  destruct (run_steps2 m orig {| r_onto := onto; r_new := [] |} 0 p); [split; [reflexivity|exact H] | split; [reflexivity|exact H] | destruct H | split; [reflexivity|exact H]].
+Qed.
+Theorem rebase_abort_restores orig onto p d : run_plan2 Abort orig onto p = R2Aborted d -> d = orig.
+Proof.
+  intros H. pose proof (rebase2_is_fold Abort orig onto p) as S. rewrite H in S. destruct S as [_ [_ [E _]]]. exact E.
+Qed.
+(* with policy Stop the new machine is the old one *)
+Theorem fold_picks2_stop h l : fold_picks2 Stop h l = fold_picks h l.
+Proof.
+  revert h. induction l as [|[p c] l IH]; intros h; [reflexivity|]. cbn [fold_picks2 fold_picks]. unfold pick2.
+  destruct (clean p h c); [apply IH|reflexivity].
+Qed.
+
+(* ---------------- schema changes ---------------- *)
+Lemma has_col_in c s : In c s -> has_col c s = true.
+Proof. intros H. unfold has_col. apply existsb_exists. exists c. split; [exact H|apply N.eqb_refl]. Qed.
+Lemma schema_eqb_refl s : schema_eqb s s = true.
+Proof. induction s as [|x s IH]; [reflexivity|]. cbn [schema_eqb]. rewrite N.eqb_refl, IH. reflexivity. Qed.
+Lemma schema_eqb_eq a : forall b, schema_eqb a b = true -> a = b.
+Proof.
+  induction a as [|x a IH]; intros [|y b] H; try discriminate; [reflexivity|].
+  cbn [schema_eqb] in H. apply andb_true_iff in H as [H1 H2]. apply N.eqb_eq in H1. f_equal; [exact H1|apply IH; exact H2].
+Qed.
+
+(* with three equal schemas the schema-aware procedure IS the plain one *)
+Theorem smerge_proc_same_schema m s b o t : smerge_proc m s s s b o t = (s, merge_proc m b o t).
+Proof. unfold smerge_proc. rewrite schema_eqb_refl. reflexivity. Qed.
+
+(* ---------------- the oracle holds on the model (commit trees of one schema) ---------------- *)
+(* Full statement: forall i, oracle i (model_obs i) = true.
+   Proved here for inputs whose commits all have the same schema (oracle_on_model_partial).  Missing for
+   schema-changing commits: the direct clauses of the oracle (cherry-pick onto the own parent gives the
+   commit's schema and rows) need well-formedness of the input (rows aligned with their schema, child
+   schema = ALTER of the parent schema) and lemmas reshape s s = id, schema_merge sp sp sc = sc; the
+   correspondence run evaluates the full oracle on every generated schema case. *)
+Lemma outcome_ok_model m s b o t : outcome_ok m s b o t (of_pres2 (s, merge_proc m b o t)) = true.
+Proof.
+  pose proof (merge_proc_spec m b o t) as H. unfold outcome_ok.
+  unfold merge_proc in *. destruct (clean b o t) eqn:C.
+  - destruct (content_eqb (merge3 b o t) (norm o)); cbn [of_pres2 snd fst mk k_kind k_data k_schema N.eqb Pos.eqb].
+    + apply is_merge3_b_intro; exact H.
+    + rewrite (is_merge3_b_intro _ _ _ _ H), schema_eqb_refl, andb_true_r. cbn [andb]. apply sorted_canonical. apply sorted_merge3.
+  - assert (Nc : no_conflict_b b o t = false).
+    { destruct (no_conflict_b b o t) eqn:Nc; [|reflexivity]. apply no_conflict_b_clean in Nc. congruence. }
+    destruct m as [|h|]; cbn [of_pres2 snd fst mk k_kind k_data k_schema k_restored N.eqb Pos.eqb is_stop is_abort]; rewrite Nc; cbn [negb andb].
+    + reflexivity.
+    + rewrite schema_eqb_refl, andb_true_r. apply andb_true_iff. split.
+      * unfold is_resolved_b. apply forallb_forall. intros k _. unfold resolve_at, merge3_at. rewrite get_resolved. apply orow_eqb_refl.
+      * apply sorted_canonical. apply sorted_resolved.
+    + rewrite schema_eqb_refl, andb_true_r. apply andb_true_iff. split.
+      * apply ext_eqb_intro. intros k. apply get_norm.
+      * apply sorted_canonical. apply sorted_norm.
+Qed.
+
+Lemma direct_ok_model m s p c :
+  direct_ok true s s p c (of_pres2 (s, merge_proc m p p c)) = true.
+Proof.
+  unfold direct_ok, merge_proc. rewrite schema_eqb_refl. cbn [andb].
+  destruct (merge3_base_left p c) as [Hc _]. rewrite Hc, merge3_base_left_eq.
+  destruct (ext_eqb p c) eqn:X.
+  - apply ext_eqb_elim in X. rewrite (norm_eq_of_ext _ _ X), content_eqb_refl. reflexivity.
+  - destruct (content_eqb (norm c) (norm p)) eqn:Y.
+    + apply content_eqb_eq in Y. assert (ext_eq p c) as Z by (intros k; rewrite <- (get_norm p), <- (get_norm c), Y; reflexivity).
+      apply ext_eqb_intro in Z. congruence.
+    + cbn [of_pres2 snd fst mk k_kind k_data k_schema N.eqb andb]. rewrite schema_eqb_refl, andb_true_r.
+      apply ext_eqb_intro. intros k. apply get_norm.
+Qed.
+
+Definition one_schema (cs : list (option N * schema * content)) : Prop := forall i j, schema_at cs i = schema_at cs j.
+
+Lemma oracle_op_model cs o : one_schema cs -> oracle_op cs o (model_op cs o) = true.
+Proof.
+  intros S. destruct o as [hd c m | hd c m | tip onto pl m]; cbn [oracle_op model_op].
+  - destruct (data_at (hist_of cs) hd) as [dh|] eqn:Eh; [|reflexivity].
+    destruct (first_parent (hist_of cs) c) as [pi|] eqn:Fp; [|reflexivity].
+    destruct (parent_data (hist_of cs) c) as [dp|] eqn:Ep; [|reflexivity].
+    destruct (data_at (hist_of cs) c) as [dc|] eqn:Ec; [|reflexivity].
+    rewrite (S pi hd), (S c hd). unfold merge_ok. rewrite smerge_proc_same_schema, schema_eqb_refl. cbn [andb].
+    rewrite outcome_ok_model. cbn [andb].
+    destruct (pi =? hd) eqn:Q; [|reflexivity]. apply N.eqb_eq in Q; subst pi.
+    unfold parent_data in Ep. rewrite Fp, Eh in Ep. inversion Ep; subst dp. apply direct_ok_model.
+  - destruct (data_at (hist_of cs) hd) as [dh|] eqn:Eh; [|reflexivity].
+    destruct (first_parent (hist_of cs) c) as [pi|] eqn:Fp; [|reflexivity].
+    destruct (parent_data (hist_of cs) c) as [dp|] eqn:Ep; [|reflexivity].
+    destruct (data_at (hist_of cs) c) as [dc|] eqn:Ec; [|reflexivity].
+    rewrite (S pi hd), (S c hd). unfold merge_ok. rewrite smerge_proc_same_schema, schema_eqb_refl. cbn [andb].
+    rewrite outcome_ok_model. cbn [andb].
+    destruct (c =? hd) eqn:Q; [|reflexivity]. apply N.eqb_eq in Q; subst hd.
+    rewrite Ec in Eh. inversion Eh; subst dh. apply direct_ok_model.
+  - destruct (data_at (hist_of cs) tip) as [dt|]; [|reflexivity].
+    destruct (data_at (hist_of cs) onto) as [d0|]; [|reflexivity].
+    destruct (plan_of (hist_of cs) pl) as [p|]; [|reflexivity].
+    pose proof (rebase2_is_fold m dt d0 p) as H.
+    destruct (run_plan2 m dt d0 p) as [s n| | |d].
+    + destruct H as [V [d [F E]]]. rewrite V, F. cbn [negb mk k_kind k_data].
+      apply andb_true_iff. split; [apply andb_true_iff; split|].
+      * destruct (n =? 0); reflexivity.
+      * apply ext_eqb_intro. intros k. rewrite get_norm. apply E.
+      * apply sorted_canonical. apply sorted_norm.
+    + destruct H as [V [M F]]. subst m. rewrite V, F. reflexivity.
+    + rewrite H. reflexivity.
+    + destruct H as [V [M [D F]]]. subst m d. rewrite V, F. cbn [negb is_abort mk k_kind k_data k_restored N.eqb Pos.eqb andb].
+      apply andb_true_iff. split; [apply ext_eqb_intro; intros k; apply get_norm | apply sorted_canonical; apply sorted_norm].
+Qed.
+
+Theorem oracle_on_model_partial cs ops : one_schema cs -> oracle (cs, ops) (model_obs (cs, ops)) = true.
+Proof.
+  intros S. unfold oracle, model_obs. cbn [fst snd].
+  induction ops as [|o ops IH]; [reflexivity|]. cbn [map oracle_ops]. rewrite (oracle_op_model cs o S), IH. reflexivity.
+Qed.
+
+(* ---------------- schema-changing commits ---------------- *)
+(* NOT PROVED (kept visible): for a schema-changing commit (sc, c) with parent (sp, p),
+     cherry_pick_on_parent_schema : smerge_proc m sp sp sc p p c = (sc, QOk (norm c))
+     revert_latest_schema         : smerge_proc m sc sc sp c c p = (sp, QOk (norm p))
+   for well-formed inputs (rows aligned with their schema, sc an ALTER of sp).  Needs
+   reshape s s = id on aligned rows, schema_merge sp sp sc = sc and settle = reshape when the
+   other side did not delete.  The correspondence evaluates exactly these two clauses on the
+   implementation and on the model for every generated schema case (Corr.direct_ok). *)
 
 (* ---------------- non-vacuity ---------------- *)
 Example ex_cellwise :
